@@ -22,16 +22,16 @@ def _chunks(path, lines_per_chunk):
         yield name
 
 
-def _run(ctx, hx, stim_files, trace_module, comp, max_lines, jobs, chunk_lines=160000, cap=40):
+def _run(ctx, hx, stim_files, trace_module, comp, max_lines, jobs, chunk_lines=160000, cap=40, replay_mode=None):
     """Execute + validate.  A defect that hits many executions (sources()/sinks() on every StableGraph with
     a vacant slot) produces hundreds of thousands of rejected events, each carrying its whole execution: the
     trace is validated chunk by chunk and at most `cap` rejections per event name are kept in full (all are
     counted in the evidence: coverage.rejected_by_event)."""
     rej, heap = [], []
     seen = ctx.extra.setdefault("rejected_by_event", {})
-    for name, sf in stim_files:
-        tr = os.path.join(ctx.work, "%s_trace_%s.ndjson" % (comp, name))
-        rej += ctx.run_stimuli(hx, sf, tr, comp)
+    for name, prof, hxp, sf in kit.profile_runs(ctx, "hx_graph", stim_files, replay_mode):
+        tr = os.path.join(ctx.work, "%s_trace_%s_%s.ndjson" % (comp, name, prof))
+        rej += ctx.run_stimuli(hxp, sf, tr, comp)
         ctx.count_distinct(tr)
         for piece in _chunks(tr, chunk_lines):
             res = ctx.validate(trace_module, piece, comp=comp, max_lines=max_lines, jobs=jobs)
@@ -64,7 +64,7 @@ def pipeline_graph(ctx, replay=None):
         rnd = os.path.join(ctx.work, "graph_rand.ndjson")
         ctx.harness(hx, ["gen", str(ctx.seed), tier, rnd, "graph"])
         stim_files = [("tlc", stim), ("random", rnd)]
-    return _run(ctx, hx, stim_files, "Trace_Graph", "graph", 20000, 8)
+    return _run(ctx, hx, stim_files, "Trace_Graph", "graph", 20000, 8, replay_mode=replay)
 
 
 def pipeline_nodes(ctx, replay=None):
@@ -83,7 +83,7 @@ def pipeline_nodes(ctx, replay=None):
         rnd = os.path.join(ctx.work, "nodes_rand.ndjson")
         ctx.harness(hx, ["gen", str(ctx.seed), tier, rnd, "node"])
         stim_files = [("tlc", stim), ("random", rnd)]
-    return _run(ctx, hx, stim_files, "Trace_Nodes", "node", 1500, 8)
+    return _run(ctx, hx, stim_files, "Trace_Nodes", "node", 1500, 8, replay_mode=replay)
 
 
 def _comp_of(replay):
